@@ -151,6 +151,25 @@ def gen_hop_job(ch, jid, label):
     return {"id": jid, "kind": "hop", "a": a, "b": b, "src": src}
 
 
+def gen_hop_group(ch, jid0, label):
+    """Several conversions of ONE source text.  Inside a replica the source is parsed once and the resulting interface
+    description is handed to every emitter that asks for it (as sync does): whatever order the schedule puts them in,
+    each must give the output it gives alone."""
+    desc = render.gen_desc(ch, "conservative", 1, 4, label)
+    desc["returns"] = None
+    a = ch.choice(label + ".a", ["class", "function", "function", "argparse"])
+    names = [p["name"] for p in desc["params"]]
+    if a == "class":
+        src = render.render_class(desc, "Config")
+    elif a == "function":
+        body = ["total = %s" % names[0], "print(total, %s)" % names[-1]]
+        src = render.render_function(desc, "train", documented=ch.subset(label + ".docsub", names, 0.6), inline_types=ch.chance(label + ".inl", 0.7), body=body)
+    else:
+        src = render.render_argparse(desc)
+    targets = ch.shuffle(label + ".targets", ["class", "function_same", "argparse_same", "docstring_rest", "function", "argparse"])[: ch.int(label + ".nt", 3, 5)]
+    return [{"id": jid0 + i, "kind": "hop", "a": a, "b": b, "src": src, "share_ir": True} for i, b in enumerate(targets)]
+
+
 def gen_docstring_job(ch, jid, label):
     desc = render.gen_desc(ch, "conservative", 0, 4, label)
     style = ch.choice(label + ".style", ["rest", "google", "numpydoc"])
@@ -225,19 +244,24 @@ def gen_corpus(seed, prop, n):
     ch = Chooser(seed)
     jobs = []
     for i in range(n):
+        if len(jobs) >= n:
+            break
+        i = len(jobs)
         lab = "j%d" % i
         if prop == "C07":
             kind = ch.weighted(lab, [("fn", 7), ("cls", 3), ("baddoc", 0.5)])
         elif prop == "C18":
             kind = "wrap"
         else:
-            kind = ch.weighted(lab, [("fn", 5), ("cls", 2), ("hop", 3), ("doc", 1), ("sync", 1), ("baddoc", 0.6), ("plaindoc", 1.5)])
+            kind = ch.weighted(lab, [("fn", 5), ("cls", 2), ("hop", 2), ("hopgroup", 1.2), ("doc", 1), ("sync", 1), ("baddoc", 0.6), ("plaindoc", 1.5)])
         if kind == "fn":
             jobs.append(gen_fn_job(ch, i, lab))
         elif kind == "cls":
             jobs.append(gen_class_job(ch, i, lab))
         elif kind == "hop":
             jobs.append(gen_hop_job(ch, i, lab))
+        elif kind == "hopgroup":
+            jobs.extend(gen_hop_group(ch, i, lab))
         elif kind == "doc":
             jobs.append(gen_docstring_job(ch, i, lab))
         elif kind == "baddoc":
@@ -409,6 +433,7 @@ class Replica(object):
         self.ns = core.load_doctrans()
         self.tmp = None
         self.count = {}
+        self.ir_by_src = {}
         self.results = []
         self.violations = []
 
@@ -483,10 +508,21 @@ class Replica(object):
                 out.append(ns.emit.docstring(ir, docstring_format="rest"))
             return out
         if k == "hop":
-            tree = ast.parse(job["src"])
-            node = tree.body[0]
-            ir = {"class": ns.parse.class_, "function": ns.parse.function, "argparse": ns.parse.argparse_ast}[job["a"]](node)
+            if job.get("share_ir"):
+                # one interface description per source text for the lifetime of the replica
+                if job["src"] not in self.ir_by_src:
+                    node0 = ast.parse(job["src"]).body[0]
+                    self.ir_by_src[job["src"]] = {"class": ns.parse.class_, "function": ns.parse.function, "argparse": ns.parse.argparse_ast}[job["a"]](node0)
+                ir = self.ir_by_src[job["src"]]
+            else:
+                tree = ast.parse(job["src"])
+                node = tree.body[0]
+                ir = {"class": ns.parse.class_, "function": ns.parse.function, "argparse": ns.parse.argparse_ast}[job["a"]](node)
             b = job["b"]
+            if b == "function_same":
+                return ns.st.to_code(ns.emit.function(ir, function_name=None, function_type=None))
+            if b == "argparse_same":
+                return ns.st.to_code(ns.emit.argparse_function(ir, function_name=None, function_type=None))
             if b == "class":
                 return ns.st.to_code(ns.emit.class_(ir))
             if b == "function":
